@@ -21,7 +21,7 @@ func init() {
 				"C19.sm: SuperMajority(n) = floor(2n/3)+1 (least integer > 2n/3), 2*SM-n > n/3, SM - f > f with f = ceil(n/3)-1, SM <= n; C19.trust: T(n) >= floor(n/3), T(1)=0, T(n)>=1 for n>=2, T(n) >= f(n), T(n) < n; " +
 				"C19.use: every comparison against TrustCount() in the module is strict (count > T), every one against SuperMajority() is count >= SM; the memo fields are written only by their getters; Peers/ByPubKey/ByID are written only by NewPeerSet/initMaps/Unmarshal; WithNewPeer refuses an existing ID. " +
 				"Nothing is executed: equalities and inequalities between closed forms are decided by comparing coefficients per residue class and the finite table."},
-		Rules: []ruleFunc{c19sm, c19trust, c19use, func(p *Prog, r *Report) { signRule(p, r, "C19.sign") }},
+		Rules: []ruleFunc{c19sm, c19trust, c19use, func(p *Prog, r *Report) { signRule(p, r, "C19.sign") }, func(p *Prog, r *Report) { memberRule(p, r, "C19.member") }},
 	})
 }
 
@@ -144,8 +144,9 @@ func c19trust(p *Prog, r *Report) {
 	r.qaCheck(rule, "T<n", site, fnName(fn), c, err, 1, "trust is attainable", "TrustCount >= n: no block could ever be trusted")
 }
 
-func c19use(p *Prog, r *Report) {
-	const rule = "C19.use"
+func c19use(p *Prog, r *Report) { thresholdUseRule(p, r, "C19.use") }
+
+func thresholdUseRule(p *Prog, r *Report, rule string) {
 	r.Rule(rule, 8, "every comparison with TrustCount() is strict (count > T), every comparison with SuperMajority() is count >= SM; memo fields written only by their getters; PeerSet.Peers/ByPubKey/ByID written only by NewPeerSet/initMaps/Unmarshal; WithNewPeer refuses an existing ID")
 	tcM := named(PEER + ".PeerSet.TrustCount")
 	smM := named(PEER + ".PeerSet.SuperMajority")
